@@ -463,6 +463,8 @@ def oos_components(facts, ty):
         return out
     if ty.get('adt') == 'std::option::Option' and ty.get('args'):
         el = ty['args'][0]
+        if isinstance(el, dict) and isinstance(el.get('tuple'), list) and len(el['tuple']) >= 2:
+            return [(str(i), t_) for i, t_ in enumerate(el['tuple'])]       # Option<(A, B)>: cells `f.0`, `f.1`
         if isinstance(el, dict) and el.get('adt') in facts.adts and el.get('adt') not in view_adts:
             a = facts.adts[el['adt']]
             if a.get('kind') == 'Struct' and len(a.get('variants', [])) == 1 and a['variants'][0]['fields']:
